@@ -506,6 +506,8 @@ type Specs struct {
 	Aliases     map[string]*Alias
 	Inline      map[string]bool
 	TypeInvs    map[string][]Clause
+	LockInvs    map[string][]Clause // "lockinv T: ..." holds whenever T's mutex is not held
+	Relies      map[string][]Clause // "rely T: ..." two-state: what other holders may do to T's guarded fields
 	Contracts   map[string]*Contract
 	GhostFields map[string]*GhostField
 	GhostVars   map[string]*GhostVar
@@ -521,7 +523,7 @@ type Specs struct {
 
 func NewSpecs() *Specs {
 	return &Specs{Contracts: map[string]*Contract{}, GhostFields: map[string]*GhostField{},
-		GhostVars: map[string]*GhostVar{}, SpecFuncs: map[string]*SpecFunc{}, SharedTypes: map[string]bool{}, Guarded: map[string]bool{}, Aliases: map[string]*Alias{}, Inline: map[string]bool{}, TypeInvs: map[string][]Clause{}}
+		GhostVars: map[string]*GhostVar{}, SpecFuncs: map[string]*SpecFunc{}, SharedTypes: map[string]bool{}, Guarded: map[string]bool{}, Aliases: map[string]*Alias{}, Inline: map[string]bool{}, TypeInvs: map[string][]Clause{}, LockInvs: map[string][]Clause{}, Relies: map[string][]Clause{}}
 }
 
 func parseClause(rest string) (Clause, error) {
@@ -906,6 +908,21 @@ func (S *Specs) LoadFile(path string, extern bool) error {
 				return fail(err)
 			}
 			S.TypeInvs[rest[:i]] = append(S.TypeInvs[rest[:i]], c)
+		case "lockinv", "rely":
+			// lockinv pkg.Type: [name:] expr over self ; rely pkg.Type: [name:] two-state expr over self
+			i := strings.Index(rest, ": ")
+			if i < 0 {
+				return fail(fmt.Errorf("%s <type>: <expr>", kw))
+			}
+			c, err := parseClause(strings.TrimSpace(rest[i+2:]))
+			if err != nil {
+				return fail(err)
+			}
+			if kw == "lockinv" {
+				S.LockInvs[rest[:i]] = append(S.LockInvs[rest[:i]], c)
+			} else {
+				S.Relies[rest[:i]] = append(S.Relies[rest[:i]], c)
+			}
 		case "inline":
 			for _, t := range strings.Fields(rest) {
 				S.Inline[t] = true
